@@ -24,6 +24,7 @@ type Table struct {
 	IC     Interceptors
 	Trace  bool
 	Routes map[string]*Route
+	Uses   int // number of Router.Use middlewares applied so far
 }
 
 func NewTable(ic Interceptors, trace bool) *Table {
@@ -32,6 +33,7 @@ func NewTable(ic Interceptors, trace bool) *Table {
 
 func (t *Table) Clone() *Table {
 	n := NewTable(t.IC, t.Trace)
+	n.Uses = t.Uses
 	for k, r := range t.Routes {
 		nr := &Route{Pattern: r.Pattern, P: r.P, Methods: map[string]string{}, MWs: append([]string(nil), r.MWs...)}
 		for m, h := range r.Methods {
@@ -224,6 +226,9 @@ func (t *Table) Parsed() []*Pattern {
 // String renders the table canonically (used in the state key).
 func (t *Table) String() string {
 	var b strings.Builder
+	if t.Uses > 0 {
+		b.WriteString("uses=" + strings.Repeat("A", t.Uses) + " ")
+	}
 	for _, k := range t.Patterns() {
 		r := t.Routes[k]
 		b.WriteString(k)
